@@ -524,6 +524,7 @@ def check_weights(ctx, R="C01.weights"):
         pf, wf = field(pop), field(cw if cw is not None else w)
         facts = lib.init_facts(model, model.cls(DI, "DiscreteRange"))
         def strip(e):
+            e = lib.role_expr(di, e)  # locals of the constructor replaced by their definitions (parameters are kept)
             while isinstance(e, ast.Call) and dotted(e.func) in ("tuple", "list") and len(e.args) == 1:
                 e = e.args[0]
             return e
